@@ -12,14 +12,14 @@ From Calamine Require Import Prelude BiffSst BiffSst_proofs Meta Meta_proofs Met
 Open Scope N_scope.
 
 Definition with_codepage (cp : N) (c : xls_choice) : xls_choice :=
-  mkLc (lc_sheets c) (lc_names c) (lc_xtis c) ((66, le16 cp) :: lc_junk0 c) (lc_junk1 c)
+  mkLc (lc_sheets c) (lc_names c) (lc_xtis c) (lc_xcuts c) ((66, le16 cp) :: lc_junk0 c) (lc_junk1 c)
        (lc_junk2 c) (lc_junk3 c) (lc_omit_1904 c) (lc_tail c).
 
 Lemma xls_stream_with_codepage_len : forall cp c wb,
   len (xls_stream (with_codepage cp c) wb) = 6 + len (xls_stream c wb).
 Proof.
   intros cp c wb. unfold xls_stream, with_codepage.
-  cbn [lc_sheets lc_names lc_xtis lc_junk0 lc_junk1 lc_junk2 lc_junk3 lc_omit_1904 lc_tail].
+  cbn [lc_sheets lc_names lc_xtis lc_xcuts lc_junk0 lc_junk1 lc_junk2 lc_junk3 lc_omit_1904 lc_tail].
   change (frames ((66, le16 cp) :: lc_junk0 c)) with (frame 66 (le16 cp) ++ frames (lc_junk0 c)).
   rewrite !len_app.
   assert (H6 : len (frame 66 (le16 cp)) = 6) by reflexivity.
@@ -50,7 +50,7 @@ Proof.
   { apply (forallb_le_mono _ (len (xls_stream c wb)));
       [rewrite xls_stream_with_codepage_len; lia | exact Hpos]. }
   remember (xls_stream (with_codepage cp c) wb) as S eqn:ES.
-  cbn [with_codepage lc_sheets lc_names lc_xtis lc_junk0 lc_junk1 lc_junk2 lc_junk3 lc_tail forallb].
+  cbn [with_codepage lc_sheets lc_names lc_xtis lc_xcuts lc_junk0 lc_junk1 lc_junk2 lc_junk3 lc_tail forallb].
   rewrite J0, J1, J2, J3, Hsheets, Hnames, Hxt, Hnx, Htail, Hpos'.
   assert (Hj : xjunk_ok (66, le16 cp) = true).
   { unfold xjunk_ok. cbn [fst snd]. change (len (le16 cp)) with 2. reflexivity. }
@@ -83,7 +83,7 @@ Qed.
    Excel (1200), of a Japanese writer (932), UTF-8 (65001), one no decoder table knows (437: not in
    the codepage crate; 54321: no code page) — and, through junk1, a second CodePage record *)
 Definition ex_xlsn_two : xls_choice :=
-  mkLc (lc_sheets ex_xlsn_c) (lc_names ex_xlsn_c) (lc_xtis ex_xlsn_c)
+  mkLc (lc_sheets ex_xlsn_c) (lc_names ex_xlsn_c) (lc_xtis ex_xlsn_c) (lc_xcuts ex_xlsn_c)
        [(225, [176; 4]); (66, [228; 4])] [(224, [0; 0; 14; 0]); (66, [164; 3; 9])] [] [(255, [])]
        false [9; 8].
 Lemma xls_codepage_nonvacuous :
